@@ -294,11 +294,22 @@ def build_model_driver(prop_id, repo='/repo'):
         ok, log = make(extract_deps(ex), 1800)
         if not ok:
             raise RuntimeError('model files do not build: ' + log[-3000:])
-        r = subprocess.run(['timeout', '900', 'coqc', '-w', '-all', '-Q', COQ, 'NixV', ex], cwd=odir,
-                           capture_output=True, text=True)
-        if r.returncode != 0:
-            raise RuntimeError('extraction failed: ' + (r.stdout + r.stderr)[-3000:])
         model = os.path.join(odir, 'model_%s.ml' % prop_id)
+        # re-extract only when the Extract file or one of the compiled model files it names has changed
+        import hashlib
+        h = hashlib.sha256(open(ex, 'rb').read())
+        for d in extract_deps(ex):
+            try:
+                h.update(open(os.path.join(COQ, d), 'rb').read())
+            except OSError:
+                h.update(b'missing')
+        keyf = os.path.join(odir, '.extract.key')
+        if not (os.path.exists(model) and os.path.exists(keyf) and open(keyf).read() == h.hexdigest()):
+            r = subprocess.run(['timeout', '900', 'coqc', '-w', '-all', '-Q', COQ, 'NixV', ex], cwd=odir,
+                               capture_output=True, text=True)
+            if r.returncode != 0:
+                raise RuntimeError('extraction failed: ' + (r.stdout + r.stderr)[-3000:])
+            open(keyf, 'w').write(h.hexdigest())
         drv = open(os.path.join(VERIF, 'ocaml', 'drv_%s.ml' % prop_id)).read()
         uses = re.findall(r'\(\* use: ([A-Za-z0-9_]+) \*\)', drv)
         parts = [open(os.path.join(VERIF, 'ocaml', 'prelude.ml')).read(), open(model).read(),
